@@ -19,7 +19,7 @@ COUSIN = {"2.3": "2.7", "2.4": "2.7", "2.5": "2.7", "2.6": "2.7",
           "2.1": "2.7", "2.2": "2.7", "2.0": "2.7"}
 # PyPy writes the marshal format of the CPython level it implements under its own magic number (PyPy's
 # pypy/interpreter/pycode.py; the numbers are also the ones of the sample files under test/bytecode_pypy*)
-PYPY = {"pypy2.7": (62218, "2.7"), "pypy3.5": (112, "3.5"), "pypy3.6": (192, "3.6"), "pypy3.7": (240, "3.7"),
+PYPY = {"pypy2.7": (62218, "2.7"), "pypy3.2": (3187, "3.2"), "pypy3.3": (64, "3.3"), "pypy3.5": (112, "3.5"), "pypy3.6": (192, "3.6"), "pypy3.7": (240, "3.7"),
         "pypy3.8": (256, "3.8"), "pypy3.9": (336, "3.9"), "pypy3.10": (384, "3.10")}
 REF_TARGETS = REAL_TARGETS + sorted(COUSIN) + sorted(PYPY)
 
